@@ -129,7 +129,7 @@ PROPS = {
     },
     'C13': {
         'level': 'proof',
-        'verus': [{'group': 'c13_blocking'}, {'group': 'srv_push'}, {'group': 'srv_notify'}],
+        'verus': [{'group': 'c13_blocking'}, {'group': 'srv_push'}, {'group': 'srv_notify'}, {'group': 'srv_wake'}],
         'explanation': 'registry kernel: FIFO service, registry invariant, and no leftover registration of a served client (with unregister_client as assumed contract)',
     },
     'C15': {
